@@ -188,6 +188,14 @@ theorem nextIs_opt (a : List Char) (c : Char) (t : List Char) (ha : OptBlank a) 
   rw [nextvis_opt a c t ha hg hs]
   simp
 
+/-- a closing parenthesis (after an optional blank) with nothing behind it ends the description -/
+theorem closeOk_opt (b : List Char) (ob : OptBlank b) : closeOk (b ++ [')']) = true := by
+  have hg : isGraph ')' = true ∧ isSpace ')' = false := by decide
+  have hv := nextvis_opt b ')' [] ob hg.1 hg.2
+  unfold closeOk nextIs nextPos
+  rw [hv]
+  simp
+
 theorem cdouble_opt (a x : List Char) (v : Rat) (r : List Char) (ha : OptBlank a) (h : cdouble x = .ok v r) :
     cdouble (a ++ x) = .ok v r := by
   rcases ha with e | e <;> subst e
